@@ -101,12 +101,17 @@ def run_case(tid, terms, strikes, cv_strikes, notional, df, spot_stats, cv_price
         product = Product(Spot(), payoff, maturity=1.0, notional=float(notional))
         cv = None
         if cv_strikes:
-            def mk(k):
+            from rpylib.product.underlying import Mean
+
+            def mk(k, j=1):
                 if isinstance(k, (list, tuple)):
                     return Product(Spot(), Vanilla(strike=[float(x) for x in k], payoff_type=PayoffType.CALL), maturity=1.0, notional=float(notional))
-                return Product(Spot(), Vanilla(strike=float(abs(k)), payoff_type=PayoffType.CALL if k >= 0 else PayoffType.PUT),
+                # with several scalar controls the FIRST one is written on an underlying of another type than the product's
+                # (the mean over one asset is that asset): controls and their market prices are paired by position
+                und = Mean() if (j == 0 and len(cv_strikes) >= 2 and dim == 1 and barrier is None) else Spot()
+                return Product(und, Vanilla(strike=float(abs(k)), payoff_type=PayoffType.CALL if k >= 0 else PayoffType.PUT),
                                maturity=1.0, notional=float(notional))
-            prods = [mk(k) for k in cv_strikes]
+            prods = [mk(k, j) for j, k in enumerate(cv_strikes)]
             # price of a control = its discounted sample mean (then the adjusted mean must equal the raw mean)
             prices = [(np.array([np.mean(xs[j][c]) * scale for c in range(dim)]) if isinstance(k, (list, tuple))
                        else float(np.mean(xs[j][0]) * scale)) for j, k in enumerate(cv_strikes)]
